@@ -374,6 +374,9 @@ const FAMILIES: &[(&str, &str, &str, &str)] = &[
     ("variant-map", "#[map(T)] #[try_map(T, Er)] #[map(U)] #[try_map(U, Er)] enum S { {MEMBER} A(i32), B }", "#[map({d}V{m})]", "V{m}"),
     ("variant-field-ghost", "#[map(T)] #[try_map(T, Er)] #[map(U)] #[try_map(U, Er)] enum S { A(i32, {MEMBER} i32), B }", "#[ghost({d}{ {m} })]", "{m}"),
     ("as_type", "#[map(T)] #[into_existing(T)] #[map(U)] #[into_existing(U)] struct S { {MEMBER} a: i32, b: i32 }", "#[o2o(as_type({d}Ty{m}))]", "Ty{m}"),
+    // a ghost variant WITHOUT an action: the marker is the absence of the variant's arm in the Into impls of the counterparts
+    // it applies to (those fall to the `_ =>` default case) - seed C02-09
+    ("variant-ghost-bare", "#[map(T| _ => todo!())] #[try_map(T, Er| _ => todo!())] #[map(U| _ => todo!())] #[try_map(U, Er| _ => todo!())] enum S { {MEMBER} A(i32), B }", "#[ghost({d0})]", "-"),
     // the marker is the FORM of the counterpart variant: `A ( )` for the default hint, `A { }` for the one dedicated to T
     ("variant-type_hint", "#[map(T)] #[try_map(T, Er)] #[map(U)] #[try_map(U, Er)] enum S { {MEMBER} A, B }", "#[type_hint({d}{h})]", "{hm}"),
 ];
@@ -404,11 +407,16 @@ impl Space for Lookups {
             let (slot, m) = slots[i];
             let d = slot.map(|s| format!("{}| ", s)).unwrap_or_default();
             let (h, hm) = if slot.is_none() { ("as ()", "A ( )") } else { ("as {}", "A { }") };
-            text.push(tmpl.replace("{d}", &d).replace("{m}", &m.to_string()).replace("{h}", h));
+            // `#[ghost(T)]` / `#[ghost]`: the dedication without the `| ` separator
+            let d0 = slot.unwrap_or("");
+            text.push(tmpl.replace("{d0}", d0).replace("{d}", &d).replace("{m}", &m.to_string()).replace("{h}", h));
             instrs.push((slot, mk.replace("{m}", &m.to_string()).replace("{hm}", hm)));
         }
+        let text: Vec<String> = text.into_iter().map(|t| t.replace("#[ghost()]", "#[ghost]")).collect();
         let input = host
             .replace("(T)", &format!("({})", cps[0]))
+            .replace("(T|", &format!("({}|", cps[0]))
+            .replace("(U|", &format!("({}|", cps[1]))
             .replace("(T,", &format!("({},", cps[0]))
             .replace("(U)", &format!("({})", cps[1]))
             .replace("(U,", &format!("({},", cps[1]))
@@ -432,6 +440,28 @@ impl Space for Lookups {
             }
         };
         rep.validate(1);
+        if c.family == "variant-ghost-bare" {
+            // the variant is a ghost for a counterpart iff an instruction dedicated to it, or the default one, is present
+            for cp in c.cps {
+                let applies = c.instrs.iter().any(|(s, _)| *s == Some(cp) || s.is_none());
+                let cp_canon = crate::xp::atoms_of_str(cp).map(|a| a.join(" ")).unwrap_or_default();
+                for i in impls.iter().filter(|i| i.trait_args.first().map(|a| a.trim_start_matches("& ") == cp_canon).unwrap_or(false)) {
+                    let is_into = i.trait_path.last().map_or(false, |t| t == "Into" || t == "TryInto");
+                    let has_arm = i.text.contains("S :: A (");
+                    // Into: a ghost variant has no arm of its own; From: a ghost variant is never produced
+                    if has_arm == applies {
+                        let mut tags = c.tags.clone();
+                        tags.push(format!("cp={}", cp));
+                        let mut f = fail(&space, choices, &c.input, &tags, "wrong-winner", format!("variant-ghost-bare for {}: variant A {} a ghost for this counterpart but `impl {} <{}>` {} it", cp, if applies { "is" } else { "is not" }, i.trait_path.last().cloned().unwrap_or_default(), i.trait_args.join(", "), if has_arm { "maps" } else { "skips" }));
+                        f.observed = trunc(&i.text, 600);
+                        rep.fail(f);
+                    }
+                    let _ = is_into;
+                }
+            }
+            rep.outputs.add_of(&(c.family, c.instrs.len()));
+            return;
+        }
         let mut sig = vec![];
         for cp in c.cps {
             let expected: Option<&String> = c.instrs.iter().find(|(s, _)| *s == Some(cp)).or_else(|| c.instrs.iter().find(|(s, _)| s.is_none())).map(|x| &x.1);
